@@ -281,6 +281,12 @@ fn exercise(b: &Board, rep: &mut Report) {
         }
     }
     rep.max("max_moves_generated", moves.len() as u64);
+    // representation-independent pressure measure for the coverage gate: distinct source squares among the generated moves
+    let mut srcs = 0u64;
+    for m in moves.iter() {
+        srcs |= 1u64 << m.get_source().to_index();
+    }
+    rep.max("max_movable_men", srcs.count_ones() as u64);
     let _ = b.status();
     let text = format!("{}", b);
     rep.add("ev_rendered_bytes", text.len() as u64);
